@@ -100,5 +100,10 @@ def programs():
                           field("k", "char"), switch("k", [case("01", [field("y", "char")]), case("2", [])]),
                           field("e", "E1"), switch("e", [case("0200", [field("z", "char")]), case("A", [])]), dummy("char", "00")])
     add("leading-zeros-dummy", [dummy("short", "010")])
+    # an absent optional item as the LAST item of a chunk that is not the last chunk: the break and the later chunks are
+    # still written
+    add("optional-array-then-break", [chunked([field("a", "char"), array("xs", "char", optional="true"), brk(), field("name", "string"), brk(), field("title", "string")])])
+    add("optional-items-then-break", [chunked([field("s", "string", optional="true"), brk(), field("p", "P", optional="true"), brk(),
+                                               array("ys", "short", length="2", optional="true"), brk(), field("tail", "string")])])
     add("two-chunked-sections-then-field", [chunked([field("a", "string")]), chunked([field("b", "string")]), field("c", "string")])
     return out
